@@ -24,10 +24,24 @@ func keyFromBytes(b []byte) (keyT, int, error) { return keyT(b), len(b), nil }
 // repo's own test value type).  The empty value can be handed to Set as an empty or as a nil slice.
 type valT []byte
 
-func valToBytes(v valT) ([]byte, error)        { return v, nil }
+func valToBytes(v valT) ([]byte, error) {
+	if len(v) > 0 && v[0] == refusedMark {
+		return nil, errRefused
+	}
+	return v, nil
+}
+
+// a value starting with refusedMark is one the value serializer returns an error for (enc "refused")
+const refusedMark = 0xfe
+
+var errRefused = errors.New("refused")
+
 func valFromBytes(b []byte) (valT, int, error) { return b, len(b), nil }
 
 func encode(v, enc string) valT {
+	if enc == "refused" {
+		return append(valT{refusedMark}, v...)
+	}
 	if enc == "nil" {
 		if v != "" {
 			panic("enc nil is for the empty value")
@@ -207,6 +221,9 @@ func keyID(k keyT) int {
 func errStr(err error) string {
 	if err == nil {
 		return "ok"
+	}
+	if errors.Is(err, errRefused) {
+		return "refused"
 	}
 	return err.Error()
 }
@@ -419,6 +436,9 @@ func (s *authSUT) RandomStimulus(r *rand.Rand) core.Ev {
 		v, enc := core.Pick(r, traceVals...), "bytes"
 		if v == "" {
 			enc = core.Pick(r, "empty", "nil")
+		}
+		if r.Intn(6) == 0 {
+			enc = "refused"
 		}
 		return core.Ev{"op": "Set", "k": k, "v": v, "enc": enc}
 	case n < 75:
